@@ -73,6 +73,8 @@ def corr(rep: C.Report, tier: str):
                     tin = cur["tailLengthInside"] + 1 / 64
                 elif mode < 0.4:        # identical call repeated
                     tin, tout, q["wallThickness"], q["wallCenter"] = cur["tailLengthInside"], cur["tailLengthOutside"], cur["wallThickness"], cur["wallCenter"]
+                elif mode < 0.55:       # the wall is moved (back) to the origin: an explicit centre of exactly zero, given as float, int or -0.0
+                    q["wallCenter"] = r.choice((0.0, 0, -0.0))
                 g.changePositionFalloffScale(tin, tout, q["wallThickness"], q["wallCenter"])
                 cur.update(tailLengthInside=tin, tailLengthOutside=tout, wallThickness=q["wallThickness"], wallCenter=q["wallCenter"])
                 lines.append(f"pos {fr(tin)} {fr(tout)} {fr(q['wallThickness'])} {fr(q['wallCenter'])}")
